@@ -21,7 +21,7 @@ def add_interface(draw, m, what=None, version=False):
     ntu = M.ntus(m2)
     what = what or _pick(draw, ["fn", "fn", "var"])
     if what == "fn":
-        name = _fresh(m2, "addfn")
+        name = _fresh(m2, _pick(draw, ["addfn", "zfn", "gfn"]))     # sorts before / after / between the fnN names
         f = {"name": name, "ret": rettype(draw, cx),
              "params": [{"name": "p%d" % i, "type": paramtype(draw, cx)} for i in range(draw(st.integers(0, 3)))],
              "variadic": False, "tu": draw(st.integers(0, ntu - 1)), "body": 1}
@@ -29,7 +29,7 @@ def add_interface(draw, m, what=None, version=False):
             f["extern_c"] = False
         m2["funcs"].append(f)
     else:
-        name = _fresh(m2, "addvar")
+        name = _fresh(m2, _pick(draw, ["addvar", "zvar", "vaq"]))
         m2["vars"].append({"name": name, "type": texpr(draw, cx, 0, allow_array=True), "tu": draw(st.integers(0, ntu - 1))})
     if version and draw(st.booleans()) and (m2["lang"] == "c" or what == "var"):
         (m2["funcs"] if what == "fn" else m2["vars"])[-1]["version"] = _pick(draw, ["VERS_1", "VERS_2"])
